@@ -382,9 +382,9 @@ class Method:
         lines, falls = self.block(body, "  ", [self.ret_term('()')])
         return doc + f"def {self.lean_name} (s : PyLD α){ps} : Except String ({rty}) := do\n" + "\n".join(lines) + "\n"
 
-    def choose(self, body, ps, rty):
+    def choose_shape(self, body):
         """if self.weighted: while True: choice = random.choice(self.items); if random.random() < E: break; return choice
-           else: return random.choice(self.items)"""
+           else: return random.choice(self.items)        -> the comparison node `random.random() < E`"""
         try:
             top = body[0]
             assert len(body) == 1 and isinstance(top, ast.If)
@@ -399,6 +399,10 @@ class Method:
             assert len(top.orelse) == 1 and ast.unparse(top.orelse[0]) == "return random.choice(self.items)"
         except (AssertionError, ValueError, IndexError):
             raise Unsupported("choose_random no longer has the recognised rejection-loop shape")
+        return cmpx
+
+    def choose(self, body, ps, rty):
+        cmpx = self.choose_shape(body)
         self.env["choice"] = "item"
         p, thr, _ = self.expr(cmpx.comparators[0], "      ")
         pre = "\n".join(p) + ("\n" if p else "")
@@ -409,6 +413,57 @@ class Method:
                 f"    if s.weighted then do\n{pre}"
                 f"      if r < {thr} then pure (s, choice) else {self.lean_name} s rest\n"
                 f"    else pure (s, choice)\n")
+
+    def choose_tm(self):
+        """the same loop against the tape monad (`Model/Tape.lean`): every `random.choice` / `random.random` call pops
+        the next scripted draw and is logged with its argument; `/` is Python's float division (ZeroDivisionError)"""
+        body = [s for s in self.node.body if not (isinstance(s, ast.Expr) and isinstance(s.value, ast.Constant))]
+        cmpx = self.choose_shape(body)
+        self.env["choice"] = "item"
+        thr_e = cmpx.comparators[0]
+        if not (isinstance(thr_e, ast.BinOp) and isinstance(thr_e.op, ast.Div)):
+            raise Unsupported("acceptance threshold is not a quotient")
+        pa, a, _ = self.expr(thr_e.left, "      ")
+        pb, b, _ = self.expr(thr_e.right, "      ")
+        pre = "\n".join(pa + pb) + ("\n" if (pa or pb) else "")
+        return (f"/-- generated from `{CLASS}.choose_random` (EoN/simulation.py:{self.node.lineno}), tape version -/\n"
+                f"def choose_random_tm (enc : α → List Nat) (s : PyLD α) : Nat → TM (PyLD α × α)\n"
+                f'  | 0 => TM.fail "fuel"\n'
+                f"  | fuel + 1 => do\n"
+                f"    if s.weighted then do\n"
+                f"      let i ← TM.popChoice (s.items.map enc)\n"
+                f"      let choice ← PyTM.liftE (PyRT.listChoice s.items i)\n"
+                f"      let r ← TM.popUnif\n{pre}"
+                f"      let thr ← PyTM.liftE (PyTM.fdiv {a} {b})\n"
+                f"      if r < thr then pure (s, choice) else choose_random_tm enc s fuel\n"
+                f"    else do\n"
+                f"      let i ← TM.popChoice (s.items.map enc)\n"
+                f"      let choice ← PyTM.liftE (PyRT.listChoice s.items i)\n"
+                f"      pure (s, choice)\n")
+
+
+def random_removal_tm(node):
+    got = [ast.unparse(s) for s in node.body if not (isinstance(s, ast.Expr) and isinstance(s.value, ast.Constant))]
+    if got != ["choice = self.choose_random()", "self.remove(choice)", "return choice"]:
+        raise Unsupported("random_removal changed: %r" % got)
+    return (f"/-- generated from `{CLASS}.random_removal` (EoN/simulation.py:{node.lineno}), tape version -/\n"
+            f"def random_removal_tm (enc : α → List Nat) (s : PyLD α) (fuel : Nat) : TM (PyLD α × α) := do\n"
+            f"  let (s, choice) ← choose_random_tm enc s fuel\n"
+            f"  let s : PyLD α ← PyTM.liftE (remove s choice)\n"
+            f"  pure (s, choice)\n")
+
+
+HEADER_TM = '''import EoNVerif.Gen.ListDictGen
+import EoNVerif.Gen.PyTM
+/-!
+GENERATED by harness/pyclass2lean.py from class `_ListDict_` of EoN/simulation.py — do not edit; regenerated on every
+check run.  Tape versions of the two sampling methods (used by the generated Gillespie functions).
+source sha1: {sha}
+-/
+namespace GenLD
+variable {{α : Type}} [DecidableEq α]
+
+'''
 
 
 HEADER = '''import EoNVerif.Gen.PyRT
@@ -463,6 +518,13 @@ def translate(repo=REPO):
             errors[name] = f"unsupported: {ex}"
     sha = hashlib.sha1("\n".join(sources).encode()).hexdigest()
     fields = "\n".join(f"  {f} : {LEAN_TY[k]}" for f, k in FIELDS.values())
+    tm = ""
+    try:
+        tm_parts = [Method(methods["choose_random"], cls).choose_tm(), random_removal_tm(methods["random_removal"])]
+        tm = HEADER_TM.format(sha=sha) + "\n".join(tm_parts) + "\nend GenLD\n"
+    except (Unsupported, KeyError) as ex:
+        errors["choose_random/random_removal (tape version)"] = f"unsupported: {ex}"
+    translate.tm_text = tm
     return HEADER.format(sha=sha, fields=fields, cls=CLASS) + "\n".join(out) + "\nend GenLD\n", errors
 
 
@@ -478,7 +540,15 @@ def regenerate():
         with open(tmp, "w") as f:
             f.write(text)
         os.replace(tmp, target)
-    return old != text, errors
+    tm = getattr(translate, "tm_text", "")
+    target_tm = os.path.join(os.path.dirname(target), "ListDictTM.lean")
+    old_tm = open(target_tm).read() if os.path.exists(target_tm) else None
+    if tm and old_tm != tm:
+        tmp = target_tm + ".tmp%d" % os.getpid()
+        with open(tmp, "w") as f:
+            f.write(tm)
+        os.replace(tmp, target_tm)
+    return old != text or (bool(tm) and old_tm != tm), errors
 
 
 def main():
